@@ -106,6 +106,8 @@ macro_rules! widen { ($small:ident, $big:ident) => {
 tiny!(U1, NzU1, 1); tiny!(U2, NzU2, 2); tiny!(U3, NzU3, 3); tiny!(U4, NzU4, 4); tiny!(U5, NzU5, 5); tiny!(U6, NzU6, 6); tiny!(U8t, NzU8t, 8); tiny!(U9, NzU9, 9); tiny!(U12, NzU12, 12); tiny!(U16t, NzU16t, 16);
 widen!(U1, U2); widen!(U1, U3); widen!(U1, U4); widen!(U2, U3); widen!(U2, U4); widen!(U2, U5); widen!(U2, U6); widen!(U2, U8t); widen!(U3, U4); widen!(U3, U6); widen!(U3, U9); widen!(U4, U8t); widen!(U4, U12); widen!(U3, U8t); widen!(U8t, U16t); widen!(U4, U16t); widen!(U6, U12);
 
+impl From<U4> for u8 { fn from(x: U4) -> u8 { x.0 as u8 } }
+
 /// Uniform access to the numeric value of every integer type used by the harness.
 pub trait VInt: constriction::BitArray {
     fn from_u128_trunc(v: u128) -> Self;
